@@ -54,6 +54,7 @@ type c12case struct {
 	host     string
 	weird    string // "" or the name of the out-of-domain twist that was applied
 	echoTail   int  // the device keeps back the last echoTail bytes of every echo for c12hold (0 = no)
+	winAdv     bool // one event's answer is longer than the search depth and has lines that END in the text the read waits for
 	statusLine bool // some event carries a prompt-like status line (in domain)
 	clean    bool   // built without any twist, from a clean queue, with questions no proper prefix of which matches their pattern, and with hidden inputs the device does not echo
 
@@ -352,6 +353,9 @@ func genC12(seed uint64, thorough bool) c12case {
 		cs.weird = "bad-option"
 		cs.badOpt = r.Pick([]string{"all", "channel"})
 	}
+	if (cs.kind == "inter" || cs.kind == "netinter") && cs.weird == "" && !cs.statusLine && r.Chance(1, 9) {
+		c12genWindowAdversarial(&cs, r, longest)
+	}
 	cs.clean = cs.weird == "" && (cs.setup == 0 || c12staleOK(cs))
 	for _, e := range cs.events {
 		if strings.HasSuffix(e.ask, ")?") || e.hidden && !e.devHidden {
@@ -368,6 +372,86 @@ func genC12(seed uint64, thorough bool) c12case {
 		}
 	}
 	return cs
+}
+
+// c12genWindowAdversarial makes one event's answer adversarial for the search window: it is longer
+// than the search depth (from depth-50, the control, to depth+2000) and every third line of it ENDS
+// — after a blank, never at a line start — in the very text the read after that event waits for
+// (the prompt, or the expected question). Whatever the read position, a window that is cut at
+// `len - depth` without moving on to the next line boundary starts inside such a line at some
+// offset of the token; the transport delivers one or a few bytes per read so that every cut
+// position is looked at. Inside the quantifier: no line of the answer matches a stop pattern.
+func c12genWindowAdversarial(cs *c12case, r *vlib.Rng, longest int) {
+	var cand []int
+	for i, e := range cs.events {
+		if i == cs.earlyAt || e.pre != "" {
+			continue
+		}
+		if e.resp == -1 || e.resp == 2 || e.resp == 3 || e.resp == 4 {
+			cand = append(cand, i)
+		}
+	}
+	if len(cand) == 0 {
+		return
+	}
+	i := cand[r.Intn(len(cand))]
+	for _, c := range cand { // prefer an event that is followed by another one: pacing is observable there
+		if c+1 < len(cs.events) && r.Chance(2, 3) {
+			i = c
+			break
+		}
+	}
+	e := &cs.events[i]
+	token := e.ask
+	if e.resp == -1 {
+		token = cs.host + "#"
+		if cs.kind == "netinter" {
+			if l := c12treeByName(cs.tree).level(cs.target); l != nil {
+				token = l.prompt(cs.host)
+			} else {
+				return
+			}
+		}
+	}
+	line := func(k int) string {
+		if k%3 == 0 {
+			return fmt.Sprintf("Gi0/%d is up, line protocol is up, uplink-to %s", k%48, token)
+		}
+		return fmt.Sprintf("  %d packets input, %d bytes, 0 no buffer ok", 1000+k*37, 90000+k*911)
+	}
+	if l := len(line(0)) + 4; l > longest {
+		longest = l
+	}
+	small := !r.Chance(1, 6)
+	if small {
+		cs.depth = longest + 3 + r.Intn(60)
+	} else {
+		cs.depth = 1000
+	}
+	extra := r.Range(-50, 2000)
+	if !small {
+		extra = r.Range(-50, 500)
+	}
+	if !cs.thorough && extra > 700 {
+		extra = 100 + extra%600
+	}
+	want := cs.depth + extra
+	var b strings.Builder
+	for k := 0; b.Len() < want; k++ {
+		b.WriteString(line(k))
+		b.WriteString(cs.nl)
+	}
+	// sweep the position of the tokens relative to the end of the answer
+	b.WriteString(strings.Repeat(".", r.Intn(len(token)+3)) + " ok" + cs.nl)
+	e.out = b.String()
+	cs.winAdv = true
+	// one or a few bytes per read
+	cs.delayUs, cs.pauseUs, cs.echoTail = 20, 0, 0
+	if small || r.Chance(1, 3) {
+		cs.segClass, cs.readSize = 1, 8192
+	} else {
+		cs.segClass, cs.segK, cs.readSize = 2, r.Range(2, 7), 8192
+	}
 }
 
 // c12genCmdShape draws the plain command under test by shape: lengths around the powers of two a
@@ -1536,6 +1620,13 @@ func c12check(c *ctx, cases []c12case) {
 		res.Count(fmt.Sprintf("dom:%v", allDom))
 		if cs.echoTail > 0 {
 			res.Count(fmt.Sprintf("echo-tail-held setup=%d dom:%v clean:%v", cs.setup, allDom, cs.clean))
+		}
+		if cs.winAdv {
+			db := "small"
+			if cs.depth == 1000 {
+				db = "default"
+			}
+			res.Count(fmt.Sprintf("window-adversarial answer depth:%s dom:%v", db, allDom))
 		}
 		if cs.statusLine {
 			res.Count(fmt.Sprintf("status-line/detour kind=%s outcome=%s dom:%v", cs.kind, cs.outcome, allDom))
